@@ -4,6 +4,7 @@ import (
 	"context"
 	"fmt"
 	"net/http"
+	"strings"
 
 	"github.com/rs/zerolog/log"
 	"github.com/semafind/semadb/httpapi/utils"
@@ -28,6 +29,13 @@ func AppHeaderMiddleware(userPlans map[string]models.UserPlan, next http.Handler
 		}
 		if appHeaders.UserId == "" || appHeaders.PlanId == "" {
 			utils.Encode(w, http.StatusBadRequest, map[string]string{"error": "missing X-User-Id or X-Plan-Id headers"})
+			return
+		}
+		/* The user id becomes a directory name and the prefix of the collection
+		 * keys. It must not change the directory level or contain the key
+		 * delimiter, otherwise a user could reach the data of another one. */
+		if appHeaders.UserId == "." || appHeaders.UserId == ".." || strings.ContainsAny(appHeaders.UserId, "/\\") {
+			utils.Encode(w, http.StatusBadRequest, map[string]string{"error": "invalid X-User-Id header"})
 			return
 		}
 		log.Debug().Interface("appHeaders", appHeaders).Msg("AppHeaderMiddleware")
